@@ -95,6 +95,10 @@ class Distortion:
                 raise ValueError('''Distortion type must be "f-tan" or
                                  "f-theta"''')
 
+            if self.optic.field_type == 'object_height':
+                # the paraxial image height is linear in the object height
+                yp = yr[0] / 1e-10 * Hy
+
             data.append(100 * (yr - yp) / yp)
 
         return data
